@@ -61,6 +61,7 @@ of the rewrites below is unsound.  Rewrites (each applied to BOTH sides):
   R34 a module-level name that the reviewed module does not have, bound once to a literal or to struct.Struct(<literal>),
       is replaced by its value (S.pack(a) -> struct.pack(fmt, a), S.unpack likewise, S.size -> calcsize(fmt))
   R35 `for k, v in X.items(): B` with X side-effect free, not written and k, v not rebound in B  ->  `for k in X: B[v := X[k]]`
+  R36 `x = sum(<E for v in it>, <numeric start>)`  ->  `x = <start>; for v in it: x += E`  (left fold, same additions in the same order)
   R14 `if a: X` directly followed by `if b: X` where X ends in continue / break / return / raise, and
       `if a: X elif b: X`:  ->  `if a or b: X`
 
@@ -1124,6 +1125,20 @@ class Normaliser:
     def expand_listcomp(self, stmts):
         out = []
         for s in stmts:
+            if isinstance(s, ast.Assign) and len(s.targets) == 1 and isinstance(s.targets[0], ast.Name) and isinstance(s.value, ast.Call) \
+                    and dotted(s.value.func) == 'sum' and len(s.value.args) == 2 and not s.value.keywords \
+                    and isinstance(s.value.args[0], (ast.GeneratorExp, ast.ListComp)) and len(s.value.args[0].generators) == 1 \
+                    and not s.value.args[0].generators[0].ifs and not s.value.args[0].generators[0].is_async \
+                    and (not self.directional or self.opts.get('expand_sum', False)):
+                x, gen, start = s.targets[0].id, s.value.args[0], s.value.args[1]
+                numeric = (isinstance(start, ast.Constant) and isinstance(start.value, (int, float)) and not isinstance(start.value, bool)) or \
+                    (isinstance(start, ast.Call) and dotted(start.func) in ('np.int64', 'np.int32', 'np.uint64', 'np.float64', 'np.float32', 'int', 'float'))
+                if numeric and x not in names_loaded(gen) and is_pure(start):
+                    g = gen.generators[0]
+                    out.append(ast.Assign(targets=[ast.Name(id=x, ctx=ast.Store())], value=start))
+                    out.append(ast.For(target=g.target, iter=g.iter, orelse=[], body=[
+                        ast.AugAssign(target=ast.Name(id=x, ctx=ast.Store()), op=ast.Add(), value=gen.elt)]))
+                    continue
             if isinstance(s, ast.Assign) and len(s.targets) == 1 and isinstance(s.targets[0], ast.Name) and isinstance(s.value, ast.ListComp) \
                     and len(s.value.generators) == 1 and not s.value.generators[0].ifs and not s.value.generators[0].is_async \
                     and (not self.directional or s.targets[0].id in self.opts.get('list_names', ())):
@@ -2246,6 +2261,8 @@ def toward_reviewed(cur_fn, ref_fn, cur_only=None):
     # rewrites that undo a restructuring are only applied when the reviewed function has the other shape
     nz.opts['continue_to_else'] = False
     nz.opts['split_elif'] = False
+    gensum = lambda f: sum(1 for n in ast.walk(f) if isinstance(n, ast.Call) and dotted(n.func) == 'sum' and n.args and isinstance(n.args[0], (ast.GeneratorExp, ast.ListComp)))
+    nz.opts['expand_sum'] = gensum(cur_fn) > gensum(ref_fn)
     rl = set()
     for n in ast.walk(ref_fn):
         if isinstance(n, ast.Assign) and len(n.targets) == 1 and isinstance(n.targets[0], ast.Name) and isinstance(n.value, ast.List) and not n.value.elts:
